@@ -28,7 +28,7 @@ na = [{"property_id": pid, "reason": props.NOT_YET.get(pid, "check not built yet
 man = {
     "version": 1,
     "setup_cmd": "bin/setup",
-    "hooks": {"guard": "verif", "enable": "cargo feature `verif` of hannibal (harness/Cargo.toml: hannibal = { path = \"/repo\", features = [\"verif\"] })",
+    "hooks": {"guard": "verif", "enable": "cargo feature `verif` of hannibal (harness/Cargo.toml: hannibal = { path = \"../repo-link\", features = [\"verif\"] }; /verif/repo-link is a symlink to /repo made by the checks, or to $VERIF_REPO when a scratch copy is being judged)",
               "baseline_off_cmd": "cd /repo && cargo test --workspace --no-fail-fast --offline",
               "source_commits": props.HOOK_COMMITS, "add_only": True},
     "engines": [{"name": "tlc-trace", "path": "/verif/bin/check", "serves_properties": [c["property_id"] for c in checks],
